@@ -1,0 +1,92 @@
+//go:build verif
+
+package storage
+
+// Contracts for govc (see /verif/DESIGN.md §5 C17). Comment-only; compiled only
+// under the build tag "verif".
+//
+// The feature-detecting helpers of funcs.go: each forwards to the storage's own
+// method when it has one, and otherwise synthesises the operation from the basic
+// ones — with the same key, the same content, and the underlying result handed back.
+
+// A storage system is foreign code: it may do anything to its own state.
+//@ interface Storage.Has(ctx, key) (r, err)
+//@   assigns foreign
+//@ interface ReadableStorage.Get(ctx, key) (r, err)
+//@   assigns foreign
+//@ interface WritableStorage.Put(ctx, key, content) (err)
+//@   assigns foreign
+//@ interface StreamingReadableStorage.GetStream(ctx, key) (r, err)
+//@   assigns foreign
+//@ interface StreamingWritableStorage.PutStream(ctx) (w, commit, err)
+//@   assigns foreign
+//@   ensures err == nil ==> w != nil && commit != nil
+//@ interface VectorWritableStorage.PutVec(ctx, key, blobVec) (err)
+//@   assigns foreign
+//@ interface PeekableStorage.Peek(ctx, key) (r, cl, err)
+//@   assigns foreign
+
+//@ func Has(ctx, store, key) (r, err)
+//@   requires store != nil
+//@   before Has assert[C17] carg0 == store && carg2 == key
+//@   after Has let got = result0
+//@   after Has let goterr = result1
+//@   ensures[C17] r == got && err == goterr
+
+//@ func Get(ctx, store, key) (r, err)
+//@   requires store != nil
+//@   before Get assert[C17] carg0 == store && carg2 == key
+//@   after Get let got = result0
+//@   after Get let goterr = result1
+//@   ensures[C17] r == got && err == goterr
+
+//@ func Put(ctx, store, key, content) (err)
+//@   requires store != nil
+//@   before Put assert[C17] carg0 == store && carg2 == key && carg3 == content
+//@   after Put let goterr = result0
+//@   ensures[C17] err == goterr
+
+// GetStream: the storage's own stream, or a reader over exactly what Get returned (and Get's error).
+//@ func GetStream(ctx, store, key) (r, err)
+//@   requires store != nil
+//@   before GetStream assert[C17] carg2 == key
+//@   before Get assert[C17] carg0 == store && carg2 == key
+//@   after Get let blob = result0
+//@   after Get let geterr = result1
+//@   before NewReader assert[C17] carg0 == blob
+//@   ensures[C17] defined(geterr) ==> err == geterr
+
+// Peek: the storage's own peek, or exactly what Get returned.
+//@ func Peek(ctx, store, key) (r, cl, err)
+//@   requires store != nil
+//@   before Peek assert[C17] carg2 == key
+//@   before Get assert[C17] carg0 == store && carg2 == key
+//@   after Get let blob = result0
+//@   after Get let geterr = result1
+//@   ensures[C17] defined(geterr) ==> err == geterr && r == blob
+
+//@ func PutStream(ctx, store) (w, commit, err)
+//@   requires store != nil
+//@   assigns foreign
+//@   before PutStream assert[C17] carg0 == store
+//@   ensures[C17] err == nil ==> w != nil && commit != nil
+
+// PutStream's fallback committer: one Put, under the key it is given, of everything written to the
+// buffer so far; a second use is an error and puts nothing.
+//@ func PutStream$1(key) (err)
+//@   requires store != nil
+//@   after Bytes let content = result0
+//@   before Put assert[C17] !old(written) && carg0 == store && carg2 == key && carg3 == content
+//@   ensures[C17] old(written) ==> err != nil
+//@   ensures[C17] written
+
+// PutVec: the storage's own vector put, or every blob written in order to the stream and then one
+// commit under the key — only after all of them were written without error.
+//@ func PutVec(ctx, store, key, blobVec) (err)
+//@   requires store != nil
+//@   before PutVec assert[C17] carg2 == key && carg3 == blobVec
+//@   before PutStream assert[C17] carg1 == store
+//@   before Write assert[C17] 0 <= rangeindex + 1 && rangeindex + 1 < len(blobVec) && carg1 == blobVec[rangeindex + 1]
+//@   before wrcommit assert[C17] carg0 == key && rangeindex + 1 >= len(blobVec)
+//@   loop 0 assigns foreign
+//@   loop 0 invariant 0 - 1 <= rangeindex && rangeindex < len(blobVec) && wr != nil && wrcommit != nil
